@@ -113,6 +113,9 @@ FIRST_MISSED = {
     "C10-12": "no check reported it -> GBNHS-3: the restart shortcut takes both a SYNACK and a DATA packet",
     "C13-12": "own property silent (reported by C14 CHUNK-4, C01 WIN-1) -> C13 shares 'ping-not-delivered' as KA-3",
     "C14-11": "no check reported it -> CHUNK-1: between a successful hand-off and the next one (or the success return) no error return is reachable",
+    "C20-11": "no check reported it -> TMO-6: explored the boolean program over the restart flag: every Sent(SYN) after the first of a handshake sees resent == true",
+    "C20-12": "no check reported it -> TMO-1: the static-timeout option's two stores are unconditional",
+    "C17-12": "no check reported it -> SIDDIR: every fallible step of ConnData.SID (ECDH, HMAC) has its error tested and returned",
     "C06-3": "no check reported it -> RATELIMIT: once lastResend is refreshed the packets are transmitted",
 }
 
